@@ -57,7 +57,8 @@ def tasks(tier, seed):
                 T.append(('sm', NP, first, crash))
     for NP in ([1, 2, 3] if quick else [1, 2, 3, 4]):
         for NL in (1, 2):
-            T.append(('spread', NP, NL))
+            for first in (False, True):
+                T.append(('spread', NP, NL, first))
     T.append(('lim',))
     for order in (1, 2, 3, 4, 5):
         T.append(('opt', order))
@@ -244,8 +245,8 @@ def sm_triage(rep, NP, first, crash, m, mr, req, cnt, clause, name):
 # ------------------------------------------------------------------------------------------------ (a') step-size spreading
 
 
-def spread_case(rep, NP, NL):
-    name = f'spread/NP{NP}/NL{NL}'
+def spread_case(rep, NP, NL, first=False):
+    name = f'spread/NP{NP}/NL{NL}/first{int(first)}'
     Tend = z3.Real('Tend')
     t0 = z3.Real('t0')
     dts = [z3.Real(f'dt{p}') for p in range(NP)]
@@ -256,11 +257,17 @@ def spread_case(rep, NP, NL):
     # pre-state invariant: the steps of the current block share one step size (what this transition must re-establish), restarts are
     # already propagated to later steps, and the block lies before Tend
     pre = [d > 0 for d in dts] + [d == dts[0] for d in dts] + [d > 0 for d in dtn] + [dti > 0, Tend > t0 + (NP - 1) * dts[0]] + [z3.Implies(rs[p], rs[p + 1]) for p in range(NP - 1)]
+    # step sizes below 1000 (the spreader uses 1e9 as a stand-in for 'no proposal'; astronomically large step sizes are not modelled)
+    pre += [d <= 1000 for d in dts + dtn + [dti]]
+    if first:  # restart_from_first_step: determine_restart makes all steps of the block restart together
+        pre += [rs[p] == rs[0] for p in range(NP)]
 
     def fn(c):
         for a in pre:
             c.add(a)
-        ctl = controller_nonMPI(NP, {'logger_level': 50, 'dump_setup': False, 'mssdc_jac': False}, base_desc(NL=NL))
+        # the spreader is configured by the REAL BasicRestarting.dependencies from the restart mode
+        ctl = controller_nonMPI(NP, {'logger_level': 50, 'dump_setup': False, 'mssdc_jac': False},
+                                base_desc(NL=NL, extra_cc={BasicRestartingNonMPI: {'restart_from_first_step': first}}))
         ctl.restart_block(list(range(NP)), [0.0] * NP, ctl.MS[0].levels[0].prob.u_exact(0))
         C = get_cc(ctl, SpreadStepSizesBlockwiseNonMPI)
         time = [SymReal(t0)]
@@ -297,6 +304,13 @@ def spread_case(rep, NP, NL):
         flags, hv = r['flags'], r['hv']
         src = flags.index(True) if True in flags else NP - 1
         prop = dtn[src] if hv[src] else dts[src]
+        if first and True in flags:
+            # all steps restart from the first one: the retried block must use the SMALLEST proposal of the restarted steps
+            cands = [dtn[q] for q in range(src, NP) if hv[q]]
+            if cands:
+                prop = cands[0]
+                for x in cands[1:]:
+                    prop = z3.If(x < prop, x, prop)
         out = r['out']
         # (1) all steps of the next block share one step size (per level), (2) never larger than the designated step's proposal,
         # (3) equal to it whenever NP steps of that size still fit before Tend (the clamp to reach Tend must not bind then)
@@ -311,10 +325,10 @@ def spread_case(rep, NP, NL):
             rep.replayed += 1
             vals = {str(v): float(model_value(m, v)) for v in [Tend, t0, dti] + dts + dtn}
             bl = {str(v): bool(model_value(m, v)) for v in rs + has}
-            obs, prop_f, fits = spread_concrete(NP, NL, vals, bl)
+            obs, prop_f, fits = spread_concrete(NP, NL, vals, bl, first)
             if len({round(a, 12) for a in obs}) != 1 or obs[0] > prop_f * (1 + 1e-12) or (fits and abs(obs[0] - prop_f) > 1e-9 * (1 + prop_f)):
                 rep.violation(f'{PID}/spread-step-sizes/one-step-size', f'{name}: next-block step sizes {obs}, proposal {prop_f} (fits before Tend: {fits}) for {vals} {bl}',
-                              {'task': ['spread', NP, NL], 'vals': vals, 'flags': bl, 'observed': obs, 'proposal': prop_f})
+                              {'task': ['spread', NP, NL, first], 'vals': vals, 'flags': bl, 'observed': obs, 'proposal': prop_f})
             else:
                 rep.unreproduced(f'{name}/path{i}', {'vals': vals, 'flags': bl, 'observed': obs, 'proposal': prop_f})
         res, m = prove(z3.And([o > 0 for row in r['out'] for o in row]), A, name=f'{name}/path{i}:positive')
@@ -326,8 +340,10 @@ def spread_case(rep, NP, NL):
     rep.sample({'case': name, 'paths': len(paths), 'free_variables': 't0, Tend, dt per step, dt_new per step (or none), dt_initial, restart flags'}, limit=4)
 
 
-def spread_concrete(NP, NL, vals, bl):
-    ctl = controller_nonMPI(NP, {'logger_level': 50, 'dump_setup': False, 'mssdc_jac': False}, base_desc(NL=NL))
+
+def spread_concrete(NP, NL, vals, bl, first=False):
+    ctl = controller_nonMPI(NP, {'logger_level': 50, 'dump_setup': False, 'mssdc_jac': False},
+                            base_desc(NL=NL, extra_cc={BasicRestartingNonMPI: {'restart_from_first_step': first}}))
     ctl.restart_block(list(range(NP)), [0.0] * NP, ctl.MS[0].levels[0].prob.u_exact(0))
     C = get_cc(ctl, SpreadStepSizesBlockwiseNonMPI)
     time = [vals['t0']]
@@ -350,6 +366,10 @@ def spread_concrete(NP, NL, vals, bl):
     obs = [float(L.params.dt) for S_ in ctl.MS for L in S_.levels]
     src = flags.index(True) if True in flags else NP - 1
     prop = vals[f'dtnew{src}'] if bl[f'has{src}'] else vals[f'dt{src}']
+    if first and True in flags:
+        cands = [vals[f'dtnew{q}'] for q in range(src, NP) if bl[f'has{q}']]
+        if cands:
+            prop = min(cands)
     fits = vals['t0'] + sum(vals[f'dt{q}'] for q in range(NP)) + NP * prop <= vals['Tend']
     return obs, prop, fits
 
@@ -719,7 +739,7 @@ def replay(path):
         print('observed', obs, 'expected', exp)
         bad = obs != exp
     elif t[0] == 'spread':
-        obs, prop_f, fits = spread_concrete(t[1], t[2], d['vals'], d['flags'])
+        obs, prop_f, fits = spread_concrete(t[1], t[2], d['vals'], d['flags'], t[3] if len(t) > 3 else False)
         print('observed', obs, 'proposal', prop_f, 'fits', fits)
         bad = len({round(a, 12) for a in obs}) != 1 or obs[0] > prop_f * (1 + 1e-12) or (fits and abs(obs[0] - prop_f) > 1e-9 * (1 + prop_f))
     else:
